@@ -27,11 +27,11 @@ def gen_ops(ctx):
         return []
     g = fl.Gen(rng)
     items = [(t, "repo-file", p) for p, t in fl.corpus()]
-    for _ in range(1500 if quick else 15000):
+    for _ in range(1200 if quick else 15000):
         items.append((g.text().encode("utf-8"), "random-declaration", None))
-    for _ in range(150 if quick else 1500):
+    for _ in range(120 if quick else 1500):
         items.append((g.text(rng.randrange(2, 9)).encode("utf-8"), "random-file", None))
-    for _ in range(300 if quick else 3000):
+    for _ in range(250 if quick else 3000):
         items.append((g.malformed().encode("utf-8", "surrogateescape"), "malformed", None))
     res = h.parse([t for t, _, _ in items])
     # second pass: what Go printed, whole files and single declarations, both option sets
@@ -64,6 +64,30 @@ def gen_ops(ctx):
             add("fmt " + c["dump"], kind + ":Combinator.Print", src, fl.hx(c["default"] + b"\n") + " " + fl.hx(c["canon"] + b"\n"))
         if len(p.combs) != 1:
             add("fmt" + "".join(" " + c["dump"] for c in p.combs), kind + ":File.Print", src, fl.hx(p.default) + " " + fl.hx(p.canon))
+    # the parser model against ParseTL2File, on every text (sources incl. mutations, and Go's own printed output);
+    # the hypotheses of C22_roundtrip on every AST the real parser returned
+    nskip = 0
+
+    def parse_line(p):
+        return "ok" + "".join(" " + fl.erase(c["dump"]) for c in p.combs) if p.ok else "err"
+
+    for (text, kind, path), p in zip(items, res):
+        if not p.ok and p.err.startswith("unexpected type category"):
+            nskip += 1   # layout between ':' and the template category: the token model has no layout (see Fmt2ParseModel)
+            continue
+        add("parse " + fl.hx(text), "parse:" + kind, path or text.decode("utf-8", "replace"), parse_line(p))
+    for (n, k, o), q in again.items():
+        if k == -1 and rng.random() < 0.5:
+            add("parse " + fl.hx(getattr(res[n], o)), "parse:printed", show(getattr(res[n], o)), parse_line(q))
+    for (text, kind, path), p in zip(items, res):
+        if not p.ok:
+            continue
+        for c in p.combs:
+            d = fl.sexp(c["dump"])
+            lexical = "00" if fl.empty_alias(c["dump"]) else "11"
+            structural = "00" if fl.dep_named_fields(d) else "11"
+            add("wf " + c["dump"], "hypotheses:" + kind, path or text.decode("utf-8", "replace"), lexical + " " + structural)
+    ctx.notes["parse_ops_excluded_category_layout"] = nskip
     # the reading side the theorems talk about: lexer on the sources and on Go's own output, parseTL2Type, TrimSpace
     direct = []
     for (text, kind, path), p in zip(items, res):
@@ -71,10 +95,10 @@ def gen_ops(ctx):
             direct.append(("lex " + fl.hx(text), "lex:" + kind, path or text.decode("utf-8", "replace")))
         if p.ok and (kind == "repo-file" or rng.random() < 0.3):
             direct.append(("lex " + fl.hx(p.default), "lex:printed", show(p.default)))
-    for _ in range(1500 if quick else 15000):
+    for _ in range(1000 if quick else 15000):
         t = g.type_text()
         direct.append(("pty " + fl.hx(t), "parseTL2Type", t))
-    for _ in range(600 if quick else 6000):
+    for _ in range(400 if quick else 6000):
         t = g.trim_text()
         direct.append(("trim " + fl.hx(t), "TrimSpace", repr(t)))
     direct = [d for d in direct if d[0] not in seen and not seen.add(d[0])]
@@ -180,14 +204,17 @@ def run(ctx):
         corr_name="corr:C22:fmt2",
         trusted=["translator: AST dump in overlay/internal/tlast/verif_fmt2_test.go (Go TL2 AST -> S-expression, the variant the Go flags "
                  "select; with (c ..) atoms erased it is the `erase` of the property: everything except positions and comments) and its "
-                 "reader in ocaml/drv_fmt2.ml",
+                 "reader/writer in ocaml/drv_fmt2.ml",
                  "generator/oracle in lib/checks/C22.py and lib/fmt2_lib.py",
-                 "the full TL2 parser is not modelled: parse(print(a)) = a and print idempotence are observed on the Go side (dump and "
-                 "text equality); the theorems cover the printer, the lexer and the type-expression parser"],
-        assumptions=["round trip through the real ParseTL2File is established by the run (Go parse-print-parse on every generated and "
-                     "repository text), not by a theorem over a full parser model",
-                     "Go code is modelled, not verified: agreement is established on the operations listed under op_kinds"],
+                 "parser model deviation: layout between ':' and a template category is rejected by Go (front() without skipWS) and "
+                 "invisible to the token-level model; parse ops with that Go error are excluded (count in parse_ops_excluded_category_layout)"],
+        assumptions=["the theorems speak about the models fmt2 / lex2 / parse2; agreement with the Go printers, lexer and ParseTL2File is "
+                     "established on the operations listed under op_kinds (and the hypotheses wf_comb / wf2_comb of C22_roundtrip are "
+                     "evaluated on every AST the real parser returned: ops of kind hypotheses)",
+                     "idempotence with comments present (default options) is observed on the Go side (print, re-parse, print), not proved: "
+                     "the parser model erases comments"],
         rule="every distinct declaration AST (repository .tl2 files, random declarations, random files and surviving token mutations from "
              "VERIF_SEED) is one op: model fmt2 with default and canonical options vs Go Print; every multi-declaration file one more op; "
-             "lexer ops on sources and printed text (model lex2 vs Go significant tokens), parseTL2Type ops (model parse_ty), "
-             "TrimSpace ops; distinct = distinct op lines")
+             "parse ops on every source text, mutation and printed text (model parse2 vs ParseTL2File, erased dumps or error), hypotheses ops "
+             "(wf_comb / wf2_comb of every parsed declaration), lexer ops (model lex2 vs Go significant tokens), parseTL2Type ops (model "
+             "parse_ty), TrimSpace ops; distinct = distinct op lines")
